@@ -33,6 +33,7 @@
 import Lumina.Proofs.Crash
 import Lumina.Proofs.CrashRedb
 import Lumina.Proofs.RedbCommit
+import Lumina.Proofs.CrashAudit
 
 namespace Lumina.Props.C22
 open Lumina.Model.Crash Lumina.Proofs.Crash
@@ -637,5 +638,159 @@ example :
 
 end RedbProtocol
 /-! END SECTION S5 -/
+
+/-! ## Audit follow-up (owner of C22): the RAW medium, and non-vacuity of `redb_store_on_protocol_partial`
+
+  BEGIN SECTION AUDIT.  The images of `redbBackend` are elements of the subtype
+  `RD = {x // Good x}` (recoverable media), so inside `crash_prefix_redb_protocol_partial` /
+  `redb_store_on_protocol_partial` "reopening succeeds" is carried by the type of `d'`.  The
+  theorems below compose S5's raw-medium results with the backend: EVERY raw medium that a crash
+  can leave (any `CrashImg` of the commit's write epochs — any prefix of the issue order, any
+  subset of the unsynced region writes — and any set of early-evicted free-page writes of a
+  running or aborting transaction) is recoverable, hence IS an element of `RD` related to the
+  pre-crash image by the backend's crash relation.  The subtype excludes no crash image. -/
+
+section AuditRaw
+open Lumina.Model.RedbCommit Lumina.Proofs.RedbCommit Lumina.Proofs.CrashAudit
+
+/-- crash inside `commit()`: the raw medium `y` is recoverable and is a `crashInCommit` image -/
+theorem redb_protocol_raw_commit_crash_reopens {α C σ : Type} [DecidableEq C] (H : Sums α C)
+    (hinj : Function.Injective H.page) (fuel : Nat) (dec : List α → σ)
+    (plan : Disk α C → σ → Plan α C)
+    (hplan : ∀ d, Clean H fuel d → ∀ w, PlanOK H fuel dec d w (plan d w))
+    (x : RD H fuel) (w : σ) (y : Disk α C)
+    (himg : CrashImg (opened H fuel x.1)
+      (commitEpochs H (opened H fuel x.1) (plan (opened H fuel x.1) w) false) y) :
+    (∃ c, recover H fuel y = some c) ∧
+    ∃ d' : RD H fuel, d'.1 = (y, true) ∧ (redbBackend H fuel dec plan hplan).crashInCommit x w d' := by
+  have hc := (opened_clean H fuel x.1 x.2).1
+  have hg : Good H fuel (y, true) :=
+    raw_commit_crash_good H hinj fuel dec _ w _ hc (hplan _ hc w) y himg
+  exact ⟨by simpa [Good] using hg, ⟨(y, true), hg⟩, rfl, rfl, himg⟩
+
+/-- crash while the closure runs or while `abort()` runs: whatever dirty pages were evicted to
+    free pages, the raw medium is recoverable and is a `crashInTx` / `crashInAbort` image -/
+theorem redb_protocol_raw_tx_crash_reopens {α C σ : Type} [DecidableEq C] (H : Sums α C)
+    (hinj : Function.Injective H.page) (fuel : Nat) (dec : List α → σ)
+    (plan : Disk α C → σ → Plan α C)
+    (hplan : ∀ d, Clean H fuel d → ∀ w, PlanOK H fuel dec d w (plan d w))
+    (x : RD H fuel) (ws : List (Write α C))
+    (hws : ∀ w ∈ ws, FreePageWrite fuel (opened H fuel x.1) w) :
+    (∃ c, recover H fuel (applyAll (opened H fuel x.1) ws) = some c) ∧
+    ∃ d' : RD H fuel, d'.1 = (applyAll (opened H fuel x.1) ws, true) ∧
+      (redbBackend H fuel dec plan hplan).crashInTx x d' ∧
+      (redbBackend H fuel dec plan hplan).crashInAbort x d' := by
+  have hc := (opened_clean H fuel x.1 x.2).1
+  have hg : Good H fuel (applyAll (opened H fuel x.1) ws, true) := raw_tx_crash_good H hinj fuel _ hc ws hws
+  exact ⟨by simpa [Good] using hg, ⟨(_, true), hg⟩, rfl, ⟨rfl, ws, hws, rfl⟩, ⟨rfl, ws, hws, rfl⟩⟩
+
+open Lumina.Model Lumina.Model.Store Lumina.Model.CrashRedb
+open Lumina.Proofs.Store Lumina.Proofs.CrashRedb
+
+/-- **C22 on the RAW medium** (store model of C19–C21 on the commit-protocol model): the store
+    has run the calls `pre`; call `op` is in flight and its `commit()` is cut by a crash that
+    leaves the raw medium `y` (ANY crash image of the commit's writes — `y` is a plain `Disk`,
+    no recoverability assumed).  Then recovery of `y` succeeds, `RedbStore::new` on it returns
+    `Ok`, and the reopened store shows the state after `pre` or after `pre ++ [op]`, with
+    consistent indexes.  Still `_partial`: hypotheses (i)–(iii) of section S5. -/
+theorem redb_store_on_protocol_raw_partial {α C : Type} [DecidableEq C] (H : Sums α C)
+    (hinj : Function.Injective H.page) (fuel : Nat) (dec : List α → Db)
+    (plan : Disk α C → Db → Plan α C)
+    (hplan : ∀ d, Clean H fuel d → ∀ w, PlanOK H fuel dec d w (plan d w))
+    (v : Hdr → Hdr → Bool) (name : Hash → String) (parent : Hdr → Hash) (hlink : HashLinked v parent)
+    (d₀ : RD H fuel) (id0 : Nat) (hid : id0 ≠ 0)
+    (hd₀ : (redbBackend H fuel dec plan hplan).view d₀ = CrashRedb.fresh id0)
+    (pre post : List Store.Op) (op : Store.Op)
+    (hw : AllWf (pre ++ op :: post)) (hvr : ValidRun v Lumina.Spec.C19.init (pre ++ op :: post))
+    (w : Db)
+    (hop : txOf v op ((redbBackend H fuel dec plan hplan).view
+      (runDisk (redbBackend H fuel dec plan hplan) d₀ (pre.map (txOf v)))) = .ok w)
+    (y : Disk α C)
+    (himg : CrashImg
+      (opened H fuel (runDisk (redbBackend H fuel dec plan hplan) d₀ (pre.map (txOf v))).1)
+      (commitEpochs H (opened H fuel (runDisk (redbBackend H fuel dec plan hplan) d₀ (pre.map (txOf v))).1)
+        (plan (opened H fuel (runDisk (redbBackend H fuel dec plan hplan) d₀ (pre.map (txOf v))).1) w) false) y)
+    (newId : Nat) :
+    (∃ c, recover H fuel y = some c) ∧
+    ∃ d' : RD H fuel, d'.1 = (y, true) ∧
+      (reopen (redbBackend H fuel dec plan hplan) (openTx newId) d').2 = .ok () ∧
+      ∃ k, pre.length ≤ k ∧ k ≤ pre.length + 1 ∧
+        (redbBackend H fuel dec plan hplan).view (reopen (redbBackend H fuel dec plan hplan) (openTx newId) d').1 =
+          ⟨id0, (runOps (RedbStore.step v) RedbStore.new ((pre ++ op :: post).take k)).1⟩ ∧
+        StoreConsistent v name parent
+          ((redbBackend H fuel dec plan hplan).view (reopen (redbBackend H fuel dec plan hplan) (openTx newId) d').1) := by
+  obtain ⟨hrec, d', hd', hcr⟩ := redb_protocol_raw_commit_crash_reopens H hinj fuel dec plan hplan
+    (runDisk (redbBackend H fuel dec plan hplan) d₀ (pre.map (txOf v))) w y himg
+  have hci : CrashImage (redbBackend H fuel dec plan hplan) d₀ ((pre ++ op :: post).map (txOf v)) d'
+      (pre.map (txOf v)).length :=
+    CrashImage.inCommit (pre.map (txOf v)) (post.map (txOf v)) (txOf v op) w d' (by simp) hop hcr
+  rw [List.length_map] at hci
+  obtain ⟨hok, k, h1, h2, _, h4, h5⟩ := redb_store_on_protocol_partial H hinj fuel dec plan hplan v name parent
+    hlink d₀ id0 hid hd₀ (pre ++ op :: post) hw hvr d' pre.length hci newId
+  exact ⟨hrec, d', hd', hok, k, h1, h2, h4, h5⟩
+
+/-- **non-vacuity of the hypothesis set of `redb_store_on_protocol_partial`** (`dec`, `plan`,
+    `hplan`, `hd₀`, together with a hash-linked oracle, a well-formed valid history and a crash
+    image): pages carry a whole `Db` (`α := Db`), the checksum is the collision-free
+    `Gen.sums Db`, the planner writes the new `Db` to one fresh page, the medium is a freshly
+    created file showing `fresh 7`; the history is S3's `exOps`, crashed idle after 3 calls. -/
+example :
+    let H := Gen.sums Db
+    let dec := Gen.dec (CrashRedb.fresh 7)
+    let plan := Gen.plan (β := Db) 1
+    ∃ (hplan : ∀ d, Clean H 1 d → ∀ w, PlanOK H 1 dec d w (plan d w)) (d₀ d' : RD H 1),
+      Function.Injective H.page ∧ HashLinked exV exParent ∧ (7 : Nat) ≠ 0 ∧
+      (redbBackend H 1 dec plan hplan).view d₀ = CrashRedb.fresh 7 ∧
+      AllWf exOps ∧ ValidRun exV Lumina.Spec.C19.init exOps ∧
+      CrashImage (redbBackend H 1 dec plan hplan) d₀ (exOps.map (txOf exV)) d' 3 := by
+  intro H dec plan
+  have hplan : ∀ d, Clean H 1 d → ∀ w, PlanOK H 1 dec d w (plan d w) :=
+    fun d _ w => Gen.plan_ok (CrashRedb.fresh 7) 0 d w
+  refine ⟨hplan, Gen.emptyRD (CrashRedb.fresh 7) 1,
+    runDisk (redbBackend H 1 dec plan hplan) (Gen.emptyRD (CrashRedb.fresh 7) 1) ((exOps.take 3).map (txOf exV)),
+    Gen.sums_injective Db, ?_, by decide, Gen.emptyRD_view (CrashRedb.fresh 7) 0, by unfold AllWf; decide,
+    validRun_of_validated exV exOps (by unfold AllValidated; decide) _ storedValid_init, ?_⟩
+  · intro x y _ h; simpa [exV, exParent] using h
+  · exact CrashImage.idle ((exOps.take 3).map (txOf exV)) ((exOps.drop 3).map (txOf exV)) (by
+      rw [← List.map_append, List.take_append_drop])
+
+
+/-- **Counterexample to the assumption for redb 2.6.3's `end_repair`** (known finding
+    `C22/redb-end-repair-double-crash`, reproduced on the real redb by
+    `corpus/C22/redb-end-repair-double-crash.ops`).  A medium left by a FIRST crash (database was
+    open: header says recovery required, on-disk allocator state stale) shows its committed
+    state; a SECOND crash inside the single flush of the repair, with the header write surviving
+    and the allocator write lost, leaves a medium that cannot be opened at all.  So this backend
+    does not satisfy `AtomicDurableCommit`, and the full statement of C22 fails for it: no prefix
+    of the history explains "unopenable".  (`crash_prefix_partial` is untouched: it assumes
+    `AtomicDurableCommit`.) -/
+theorem redb_end_repair_counterexample :
+    let B := endRepairBackend
+    let m : Medium := ⟨5, false, true⟩        -- after the first crash
+    let m' : Medium := ⟨5, false, false⟩      -- second crash inside `end_repair`: header kept, allocator state lost
+    B.view m = some 5 ∧ B.crashInTx m m' ∧ B.view m' = none ∧
+    ¬ AtomicDurableCommit B ∧ ¬ FullStatement (ε := Unit) B := by
+  intro B m m'
+  have hcr : B.crashInTx m m' := ⟨false, true, rfl⟩
+  have hv : B.view m = some 5 := rfl
+  have hv' : B.view m' = none := rfl
+  refine ⟨hv, hcr, hv', ?_, ?_⟩
+  · intro h
+    have := h.crash_tx_invisible m m' hcr
+    rw [hv, hv'] at this
+    cases this
+  · intro h
+    let op : Op (Option Nat) Unit := fun s => .ok s
+    obtain ⟨k, _, _, hk⟩ := h m [op] m' 0 (CrashImage.inClosure (B := B) [] [] op m' rfl hcr)
+    have hrun : ∀ k, runAbs (B.view m) (([op] : List (Op (Option Nat) Unit)).take k) = some 5 := by
+      intro k
+      cases k with
+      | zero => rfl
+      | succ k => simp [List.take_succ_cons, runAbs, applyOp, op, hv]
+    rw [hv', hrun k] at hk
+    cases hk
+
+end AuditRaw
+/-! END SECTION AUDIT -/
 
 end Lumina.Props.C22
